@@ -8,7 +8,8 @@ the start-up derivation of the configuration (main.go / node.go) does, one defin
 
 1. TLC explores spec/MC_Upgrade.tla (bounded: 3 nodes = 3 online identities on one chain, worlds starting at consensus
    version 10 or 11, with / without GenerateGenesisAfterUpgrade, validation far or coming close; families of bounds that
-   each exhaust one combination of features: books / restarts / crafted and forced blocks / nodes behind / two upgrades)
+   each exhaust one combination of features: books / restarts / crafted and forced blocks / nodes behind / two upgrades /
+   an orphaned last block)
    with the design invariants (SameChainSameVersion, SameGenesisInfo, VersionByChain, GenesisByChain,
    NewGenesisExactlyAfterUpgrade, VersionMonotone, RestartNeutral) and exports schedules: some per transition class, plus
    random walks of a larger instance; spec/MC_UpgradeQ.tla is the case table of the upgrader's own rules.
@@ -34,7 +35,7 @@ import vlib
 
 CLOCKS = ["blockchain/blockchain.go", "core/upgrade/upgrader.go"]
 
-FAMILIES = {True: ["q1", "q2", "q3", "q4", "q5"], False: ["t1", "t2", "t3", "t4", "t5"]}
+FAMILIES = {True: ["q1", "q2", "q3", "q4", "q5", "q6"], False: ["t1", "t2", "t3", "t4", "t5", "t6"]}
 
 # transition classes the bounded model must have exercised (and exported): every action class the module claims
 NEED_KINDS = ["upgrade11:adopted", "upgrade12:adopted", "upgrade12:refused", "newgenesis", "after-upgrade:no-newgenesis",
@@ -43,7 +44,7 @@ NEED_KINDS = ["upgrade11:adopted", "upgrade12:adopted", "upgrade12:refused", "ne
               "restart:old-genesis-differs", "deliver:upgrade", "deliver:newgenesis",
               "craft:wrong-target:refused", "craft:no-quorum:refused", "craft:no-quorum:forced", "craft:out-of-window:refused", "craft:out-of-window:forced",
               "craft:ng-spurious:refused", "craft:ng-missing:refused", "craft:ng-with-upgrade:refused", "craft:v11-at-11:adopted", "craft:consistent:adopted",
-              "probe:pay11:accepted", "probe:pay11:refused"]
+              "probe:pay11:accepted", "probe:pay11:refused", "reorg:upgrade", "reorg:newgenesis", "reorg:plain"]
 
 QUIRKS = {
     "V11Always": "a block with Upgrade = 11 is admitted by Upgrader.ValidateBlock whatever the book says: at version 10 a single proposer upgrades the network "
@@ -154,6 +155,9 @@ def _signature(clause, row, rows, line):
         return "%s-offer-%s-at-v%s" % ("honest" if row.get("honest") else "crafted", _blk_kind(row.get("blk")), "+".join(vers))
     if ev in ("Block", "Deliver"):
         return "%s-%s%s" % (ev.lower(), _blk_kind(row.get("blk")), "-forced" if row.get("forced") else "")
+    if ev == "Reorg":
+        o = row.get("orphan", {})
+        return "orphaned-%s-block" % ("upgrade" if o.get("upg") else "newgenesis" if o.get("ng") else "plain")
     if ev == "Restart":
         # where the node stood: the last block it holds
         h = None
@@ -180,7 +184,7 @@ def _signature(clause, row, rows, line):
 
 
 SLIM = ("ev", "hid", "h", "n", "p", "i", "bits", "hon", "honest", "forced", "adopt", "blk", "now", "verd", "ins", "res", "msg", "msgs", "pbook", "prevupg", "k", "r",
-        "built", "to", "qs", "cs", "ver", "vt", "votes", "elig", "can", "valid", "acc", "target", "tag")
+        "built", "to", "qs", "cs", "orphan", "ver", "vt", "votes", "elig", "can", "valid", "acc", "target", "tag")
 
 
 def _report(ctx, trace, info):
@@ -233,17 +237,8 @@ def _annotate(rows):
     return quirks
 
 
-def run(ctx, quick):
-    rnd = random.Random(ctx.seed)
-    drv = vlib.build_driver(ctx, "d_upgrade", clocks=CLOCKS)
-
-    # seeded random histories start right away (they do not depend on the model run)
-    nshard = 3 if quick else 6
-    per, rlen = (4, 90) if quick else (30, 140)
-    rjobs = [["-out", ctx.path("upg_rand_%d.ndjson" % i), "-random", str(per), "-len", str(rlen), "-first", str(i * per)] for i in range(nshard)]
-    pool = concurrent.futures.ThreadPoolExecutor(max_workers=1)
-    rfut = pool.submit(_shards, ctx, drv, rjobs, 3000)
-
+def _generate(ctx, quick, rnd):
+    """Everything that depends on the specifications only (not on the repository): model runs, schedule export, case table."""
     # 1. bounded model families: design invariants + schedule export (side by side, two workers each)
     fams = FAMILIES[quick]
 
@@ -283,6 +278,35 @@ def run(ctx, quick):
     if quick:
         rnd.shuffle(table)
         table = table[:700]
+    return {"scen": scen, "kinds": kinds, "walks": walks, "table": table, "states": states, "trans": trans, "fams": fams}
+
+
+def run(ctx, quick):
+    rnd = random.Random(ctx.seed)
+    drv = vlib.build_driver(ctx, "d_upgrade", clocks=CLOCKS)
+
+    # seeded random histories start right away (they do not depend on the model run)
+    nshard = 3 if quick else 6
+    per, rlen = (4, 90) if quick else (30, 140)
+    rjobs = [["-out", ctx.path("upg_rand_%d.ndjson" % i), "-random", str(per), "-len", str(rlen), "-first", str(i * per)] for i in range(nshard)]
+    pool = concurrent.futures.ThreadPoolExecutor(max_workers=1)
+    rfut = pool.submit(_shards, ctx, drv, rjobs, 3000)
+
+    # 1. what depends on the specifications only: model families, walks, case table.  A development run may keep it in
+    # VERIF_UPG_GEN (the exports are a function of the specifications, the tier and the seed).
+    gen_dir = os.environ.get("VERIF_UPG_GEN")
+    gen_file = os.path.join(gen_dir, "upg_gen_%s_%d.json" % (ctx.tier, ctx.seed)) if gen_dir else None
+    if gen_file and os.path.exists(gen_file):
+        with open(gen_file) as f:
+            g = json.load(f)
+        ctx.log("model exports taken from %s" % gen_file)
+    else:
+        g = _generate(ctx, quick, rnd)
+        if gen_file:
+            os.makedirs(gen_dir, exist_ok=True)
+            with open(gen_file, "w") as f:
+                json.dump(g, f)
+    scen, kinds, walks, table, states, trans, fams = g["scen"], g["kinds"], g["walks"], g["table"], g["states"], g["trans"], g["fams"]
     allscen = scen + walks
 
     # 2. replay on real worlds (sharded: clock and activation windows are per process)
@@ -310,7 +334,7 @@ def run(ctx, quick):
     pool.shutdown()
     ctx.log("real worlds: " + " ".join("%s=%d" % kv for kv in sorted(st.items())))
     for k in ("worlds", "blocks", "votes", "persists", "restarts", "offers", "crafted", "forced", "refused", "upgrades", "newgen", "delivers", "probes",
-              "queries", "full", "lagged", "empty", "cases", "listener"):
+              "queries", "full", "lagged", "empty", "cases", "listener", "reorgs"):
         if not st.get(k):
             raise vlib.CheckError("the driver never produced '%s' (dead driver)" % k)
 
@@ -333,7 +357,7 @@ def run(ctx, quick):
             evs[row.get("ev")] += 1
         vlib.write_ndjson(t, rows)
         traces.append(t)
-    for e in ("Genesis", "Query", "Vote", "Persist", "Restart", "Offer", "Block", "Deliver", "Probe", "Case", "Listener"):
+    for e in ("Genesis", "Query", "Vote", "Persist", "Restart", "Offer", "Block", "Deliver", "Probe", "Reorg", "Case", "Listener"):
         if not evs.get(e):
             raise vlib.CheckError("no '%s' line in the recorded traces (dead driver)" % e)
     with concurrent.futures.ThreadPoolExecutor(max_workers=len(traces)) as ex:
